@@ -44,7 +44,8 @@ Judge ==
 
 \* where the observed value departs from the expected one (diagnostic text only)
 Why(v) ==
-  IF Line.ev = "Decode" /\ Len(Line.in) > 2000 THEN <<"(large value: no diff computed)">>
+  IF Line.obs.out \in {"crash", "timeout", "panic"} THEN <<Line.obs.out>>
+  ELSE IF Line.ev = "Decode" /\ Len(Line.in) > 2000 THEN <<"(large value: no diff computed)">>
   ELSE IF Line.ev = "Decode" /\ Line.obs.out = "ok" /\ "rt_val" \in v
   THEN <<"rt">> \o DiffStruct(Line.ty, Line.obs.val, NormS(Line.ty, cur.vals[Line.orig + 1]))
   ELSE IF Line.ev = "Decode" /\ Line.obs.out = "ok" /\ "dec_val" \in v
